@@ -46,9 +46,13 @@ class control_proportional_integral(Control[float]):
     def apply(self, dt: float, error_norm_inv_prev: float, /, *, error_power):
         # Equivalent: error_power = error_norm ** (-1.0 / error_contraction_rate)
         gain_integral = error_power**self.exponent_integral
-        gain_proportional = (
-            error_power / error_norm_inv_prev
-        ) ** self.exponent_proportional
+
+        # If the error estimate vanishes twice in a row (e.g. a solution that the prior
+        # captures exactly), both powers are infinite and their ratio would be NaN.
+        # Two equally (infinitely) good steps have ratio one.
+        both_inf = np.logical_and(np.isinf(error_power), np.isinf(error_norm_inv_prev))
+        ratio = np.where(both_inf, 1.0, error_power / error_norm_inv_prev)
+        gain_proportional = ratio**self.exponent_proportional
         step_ratio_unclipped = self.safety * gain_integral * gain_proportional
 
         scale_factor_clipped_min = np.minimum(step_ratio_unclipped, self.factor_max)
